@@ -150,6 +150,26 @@ EXTRA2 = {
     "C19": " Round 4: only the temporary path is ever opened for writing (R1).",
 }
 
+EXTRA3 = {
+    "C02": " Round 5: after the pool iterator's slab cursor moves the cached per-slab iterator is rewritten before the next round (R15); also evaluates C04.R5 (a poisoned pool mutex stops every later handle drop from destroying its object).",
+    "C03": " Round 5: also evaluates C01.R10/R11/R4 (checked insertion entry points, handle coordinates).",
+    "C04": " Round 5: also evaluates C02.R8 (a slab dropped while a user panic unwinds does not raise its own panic).",
+    "C05": " Round 5: each single-purpose cell accessor performs its access exactly once on every path.",
+    "C06": " Round 5: the receiver's Future::poll releases on the inner poll's own result only; no function holding the event by `&Event` argument reaches a waker invocation (evaluated on the un-normalised program).",
+    "C07": " Round 5: the same two rules on the single-threaded event and receiver.",
+    "C08": " Round 5: no call made with the waiter-list guard live reaches Waker::clone.",
+    "C09": " Round 5: every sample of the requested count is dominated by a length test of the sampled collection (R10); the quota reduction returns its own argument, only shortened.",
+    "C10": " Round 5: the by-id processor table is filled at each processor's own id, never by position (R9).",
+    "C11": " Round 5: CpuMask equality returns nothing but the padded word-by-word comparison.",
+    "C12": " Round 5: closures handed by value to library code under a registry guard capture nothing with a user destructor; the first-instance provider is only ever handed to the registry-arbitrated initialiser.",
+    "C13": " Round 5: every retry of the regional install re-loads the latest value; users of a region's state run on the slot's content, never on a private copy.",
+    "C14": " Round 5: Pool::drop reaches join_all_workers exactly once on every path.",
+    "C17": " Round 5: no user callback of the worker closure runs with a lock guard live.",
+    "C18": " Round 5: no decision taken under one acquisition of the session's operations lock acts under another (R6).",
+    "C19": " Round 5: run_inflate originates a truncation error only after the pass's decompress call and from its output progress.",
+    "C20": " Round 5: sorts of f64-valued slices compare numerically (total_cmp / partial_cmp), never by bit pattern (R7); the tie term handed to the normal approximation is the unconditional result of mann_whitney_tie_term (R8).",
+}
+
 PENDING = "static check not implemented yet in this round (planned, see DESIGN.md section 5); not claimed until it exists"
 
 ALL = [f"C{i:02d}" for i in range(1, 21)]
@@ -161,7 +181,7 @@ def main():
         if pid not in CLAIMS:
             continue
         tech, text, note, ref = CLAIMS[pid]
-        text = text + EXTRA.get(pid, "") + EXTRA2.get(pid, "")
+        text = text + EXTRA.get(pid, "") + EXTRA2.get(pid, "") + EXTRA3.get(pid, "")
         note = note + " Names, parameter order and field names of the analysed tree are mapped back to the committed baseline vocabulary (vf/baseline.json) where unambiguous; new private helpers are inlined into their callers before the rules run."
         checks.append({
             "property_id": pid,
